@@ -485,3 +485,79 @@ package main
 //@   props C08
 //@   panics never
 //@   returns "(" + eGo(binOp.Lhs) + binOp.Op + eGo(binOp.Rhs) + ")"
+
+// ---------------------------------------------------------------------------------------------
+// C08: precedence climbing, for chains of any length.  Ghost ranks: an operand (whatever parseTerm
+// returns: atom, application, parenthesised expression, `not ...`) has rank 100; a node built for an
+// operator has that operator's rank.  The ghost flag wg says every node built so far is well grouped:
+// rank(left) >= rank(op) and rank(right) > rank(op) - i.e. the published table with left association.
+// ---------------------------------------------------------------------------------------------
+
+//@ func psSkipEOL
+//@   trusted
+//@   panics may
+//@   returns skipeol(ps)
+//@   note abstract: skips EOL tokens (recursion over the tokenizer); may panic on a scanner error
+
+//@ func psConsume
+//@   trusted
+//@   panics may
+//@   note abstract: checks the current token type and advances
+
+//@ func lookupBinOp
+//@   trusted
+//@   panics never
+//@   ensures found: result.E1 == isbinop(tk)
+//@   ensures info: result.E0 == binfo(tk)
+//@   note abstract view of the immutable operator table binOpMap (content checked by the binOpMap scan)
+
+//@ func parseTerm
+//@   trusted
+//@   modifies glob:wg
+//@   panics may
+//@   ensures grouped: old(glob(wg)) ==> glob(wg)
+//@   note abstract: one operand (atom, application, parenthesised expression, not ...): rank 100.  It builds no binary node itself (scan: newBinOpCall is called only from parseBinAfter); sub-expressions go through pExpr, i.e. parseExprWithPrec, whose contract preserves wg
+
+//@ func psTypeVarGen
+//@   trusted
+//@   panics never
+
+//@ func parseBinAfter
+//@   props C08
+//@   modifies glob:wg
+//@   ghost-in rpc int            -- rank of cur
+//@   ghost rp int                -- rank of the expression returned
+//@   param pEwithMinPrec: like parseExprWithPrec(_, $0, $1)
+//@   requires next-fits: nextfits(ps, rpc)
+//@   requires min-small: minPrec <= 100
+//@   panics may
+//@   ensures rank: rp >= minPrec || rp >= rpc
+//@   ensures stop: stop(result.E0, minPrec)
+//@   ensures grouped: old(glob(wg)) ==> glob(wg)
+//@   at before call frt.NewTuple2#0: rp = rpc
+//@   at before call frt.NewTuple2#1: rp = rpc
+//@   at after call pEwithMinPrec#0: rrhs = c_rp
+//@   ghost rrhs int
+//@   at before call newBinOpCall#0: glob(wg) = glob(wg) && rpc >= bop.Precedence && rrhs > bop.Precedence
+//@   at before call parseBinAfter#0: pass rpc = bop.Precedence
+//@   at after call parseBinAfter#0: rp = c_rp
+
+//@ func parseExprWithPrec
+//@   props C08
+//@   modifies glob:wg
+//@   ghost rp int
+//@   requires min-small: minPrec <= 100
+//@   panics may
+//@   ensures rank: rp >= minPrec
+//@   ensures stop: stop(result.E0, minPrec)
+//@   ensures grouped: old(glob(wg)) ==> glob(wg)
+//@   at before call parseBinAfter#0: pass rpc = 100
+//@   at after call parseBinAfter#0: rp = c_rp
+//@   at before call frt.NewTuple2#0: rp = 100
+
+//@ func parseExpr
+//@   props C08
+//@   modifies glob:wg
+//@   panics may
+//@   ensures grouped: old(glob(wg)) ==> glob(wg)
+//@   ensures stop: stop(result.E0, 1)
